@@ -450,3 +450,227 @@ Proof.
   - split; intros Hx; discriminate.
   - inv Hcl. destruct H1. split; intros Hx; cbn in Hx; congruence.
 Qed.
+
+(* ------------------------------------------------------------------------- *)
+(* get_sdr_chunk_helper                                                       *)
+(* ------------------------------------------------------------------------- *)
+Ltac chunk_cases n IH :=
+  induction n as [|n IH]; intros resv os t x rs H; cbn [chunk_iter] in H;
+  [ inv H
+  | destruct os as [|o os1]; [ inv H |
+    destruct o as [cc|cc|e];
+    [ destruct (cc =? 0) eqn:E0; [ inv H |
+      destruct (cc =? CC_RES_CANCELED) eqn:Ec;
+      [ destruct os1 as [|o2 os2]; [ inv H | destruct o2 as [nv|c2|e2]; [ split_rec chunk_iter H | inv H | inv H ] ]
+      | destruct (cc =? CC_TIMEOUT) eqn:Et; [ split_rec chunk_iter H |
+        destruct (cc =? CC_RESP_COULD_NOT_BE_PRV) eqn:Eu; [ split_rec chunk_iter H | inv H ] ] ] ]
+    | inv H | inv H ] ] ].
+
+Definition sent_ok (e : event) : bool :=
+  match e with ECall (CSend _) (OVal cc) => cc =? 0 | _ => false end.
+
+Lemma chunk_iter_consumes n : forall resv os t x rs,
+  chunk_iter n resv os = (t, x, rs) -> outs t ++ rs = os.
+Proof. chunk_cases n IH; cbn [outs app]; try (apply IH in E; rewrite E); reflexivity. Qed.
+
+Lemma chunk_iter_counts n : forall resv os t x rs,
+  chunk_iter n resv os = (t, x, rs) ->
+  (count is_send t <= n)%nat /\ (count is_reserve t <= count is_cancelled t)%nat /\
+  (forall k, count (is_clear k) t = 0%nat) /\ count is_xfer t = 0%nat /\
+  (length (outs t) <= 2 * n)%nat.
+Proof.
+  chunk_cases n IH; try (apply IH in E; destruct E as (E1 & E2 & E3 & E4 & E5));
+    cbn [app]; rewrite ?count_cons; cbn [is_send is_reserve is_cancelled is_clear is_xfer outs length];
+    rewrite ?Ec; try (apply N.eqb_eq in Et; subst cc); try (apply N.eqb_eq in Eu; subst cc);
+    (splits; [ | | intros k; rewrite ?count_cons; cbn [is_clear]; try rewrite (E3 k) | | ]);
+    try reflexivity; try (cbn; lia).
+Qed.
+
+Lemma chunk_iter_fresh n : forall resv os t x rs,
+  chunk_iter n resv os = (t, x, rs) ->
+  fresh_ok (Some resv) t = true /\ (forall r, x = Ok r -> cur_resv (Some resv) t = Some r).
+Proof.
+  chunk_cases n IH; try (apply IH in E; destruct E as (E1 & E2));
+    cbn [app fresh_ok cur_resv carries]; rewrite ?N.eqb_refl; cbn [andb];
+    (split; [ assumption || reflexivity | intros r Hr; (apply E2; exact Hr) || (inv Hr; reflexivity) || discriminate ]).
+Qed.
+
+Lemma chunk_iter_ends n : forall resv os t x rs,
+  chunk_iter n resv os = (t, x, rs) -> is_ok x = ends_with sent_ok t.
+Proof.
+  chunk_cases n IH; try (apply IH in E; cbn [app]; rewrite E, !ends_with_cons; destruct t'; reflexivity);
+    unfold ends_with; cbn; rewrite ?E0; try reflexivity.
+  all: destruct c2 || destruct e2 || idtac; reflexivity.
+Qed.
+
+Lemma chunk_iter_propagate n : forall resv os t x rs,
+  chunk_iter n resv os = (t, x, rs) ->
+  (forall r cc, In (ECall (CSend r) (OVal cc)) t -> cc <> 0 -> cc <> CC_RES_CANCELED -> cc <> CC_TIMEOUT ->
+     cc <> CC_RESP_COULD_NOT_BE_PRV -> x = Err (CCError cc)) /\
+  (forall c cc, In (ECall c (OCc cc)) t -> x = Err (CCError cc)) /\
+  (forall c e, In (ECall c (OExc e)) t -> x = Err e).
+Proof.
+  chunk_cases n IH; try (apply IH in E; destruct E as (E1 & E2 & E3));
+    (splits; [ intros r0 cc0 Hin Hz H5 H3 He | intros c0 cc0 Hin | intros c0 e0 Hin ]); in_cases Hin;
+    try contradiction; try discriminate;
+    try (eapply E1; eassumption); try (eapply E2; eassumption); try (eapply E3; eassumption);
+    try (inv Hin; try reflexivity; exfalso;
+         try (apply N.eqb_eq in E0; congruence); try (apply N.eqb_eq in Ec; congruence);
+         try (apply N.eqb_eq in Et; congruence); try (apply N.eqb_eq in Eu; congruence)).
+Qed.
+
+Lemma chunk_iter_budget n : forall resv os t x rs,
+  chunk_iter n resv os = (t, x, rs) -> Forall clean os ->
+  (x = Err RetryError -> count is_send t = n) /\
+  (x = Err OutOfFuel -> (length os < 2 * n)%nat).
+Proof.
+  chunk_cases n IH; intros Hcl;
+    repeat match goal with Hc : Forall clean (_ :: _) |- _ => inv Hc end;
+    try (apply IH in E; [destruct E as (E1 & E2) | assumption]);
+    cbn [app]; rewrite ?count_cons; cbn [is_send length];
+    (split; intros Hx; try discriminate; try (inv Hx);
+     try (specialize (E1 eq_refl)); try (specialize (E2 eq_refl)); try (cbn; lia)).
+  all: try match goal with Hc : clean (OExc _) |- _ => destruct Hc; congruence end.
+  all: try match goal with Hc : clean ?o, Hx : raised ?o = _ |- _ => apply (@clean_raised N) in Hc; destruct Hc; congruence end.
+Qed.
+
+(* ------------------------------------------------------------------------- *)
+(* Ipmi.send_message                                                          *)
+(* ------------------------------------------------------------------------- *)
+Ltac send_cases n IH :=
+  induction n as [|n IH]; intros os t x rs H; cbn [send_loop] in H;
+  [ inv H
+  | destruct os as [|o os1]; [ inv H |
+    destruct o as [v|cc|e];
+    [ inv H | destruct (cc =? CC_NODE_BUSY) eqn:Eb; [ split_rec send_loop H | inv H ] | inv H ] ] ].
+
+Definition busy_ev : event := ECall CXfer (OCc CC_NODE_BUSY).
+Definition got_rsp (e : event) : bool := match e with ECall CXfer (OVal _) => true | _ => false end.
+
+Lemma send_consumes n : forall os t x rs, send_loop n os = (t, x, rs) -> outs t ++ rs = os.
+Proof. send_cases n IH; cbn [outs app]; try (apply IH in E; rewrite E); reflexivity. Qed.
+
+Lemma send_counts n : forall os t x rs, send_loop n os = (t, x, rs) ->
+  (count is_xfer t <= n)%nat /\ length t = count is_xfer t.
+Proof.
+  send_cases n IH; try (apply IH in E; destruct E as (E1 & E2)); cbn [app]; rewrite ?count_cons;
+    cbn [is_xfer length]; split; try (cbn; lia).
+Qed.
+
+Lemma send_busy_only n : forall os t x rs, send_loop n os = (t, x, rs) ->
+  Forall (fun e => e = busy_ev) (removelast t).
+Proof.
+  send_cases n IH; try (cbn; constructor; fail).
+  apply IH in E. cbn [app]. destruct t' as [|e' t'']; [cbn; constructor|].
+  change (removelast (ECall CXfer (OCc cc) :: e' :: t'')) with (ECall CXfer (OCc cc) :: removelast (e' :: t'')).
+  constructor; [|exact E]. apply N.eqb_eq in Eb. subst cc. reflexivity.
+Qed.
+
+Lemma send_ends n : forall os t x rs, send_loop n os = (t, x, rs) ->
+  is_ok x = ends_with got_rsp t /\ (forall v, x = Ok v -> lastev t = Some (ECall CXfer (OVal v))).
+Proof.
+  send_cases n IH; try (split; [reflexivity | intros v0 Hv; inv Hv; reflexivity]).
+  apply IH in E. destruct E as (E1 & E2). cbn [app]. split.
+  - rewrite E1, ends_with_cons. destruct t'; reflexivity.
+  - intros v Hv. specialize (E2 v Hv). change (ECall CXfer (OCc cc) :: t') with ([ECall CXfer (OCc cc)] ++ t').
+    rewrite lastev_app, E2. reflexivity.
+Qed.
+
+Lemma send_propagate n : forall os t x rs, send_loop n os = (t, x, rs) ->
+  (forall c cc, In (ECall c (OCc cc)) t -> cc <> CC_NODE_BUSY -> x = Err (CCError cc)) /\
+  (forall c e, In (ECall c (OExc e)) t -> x = Err e).
+Proof.
+  send_cases n IH; try (apply IH in E; destruct E as (E1 & E2));
+    (split; [ intros c0 cc0 Hin Hb | intros c0 e0 Hin ]); in_cases Hin;
+    try contradiction; try discriminate; try (eapply E1; eassumption); try (eapply E2; eassumption);
+    try (inv Hin; try reflexivity; exfalso; apply N.eqb_eq in Eb; congruence).
+Qed.
+
+Lemma send_budget n : forall os t x rs, send_loop n os = (t, x, rs) -> Forall clean os ->
+  (x = Err RetryError -> count is_xfer t = n /\ Forall (fun e => e = busy_ev) t) /\
+  (x = Err OutOfFuel -> (length os < n)%nat).
+Proof.
+  send_cases n IH; intros Hcl;
+    repeat match goal with Hc : Forall clean (_ :: _) |- _ => inv Hc end;
+    try (apply IH in E; [destruct E as (E1 & E2) | assumption]);
+    cbn [app]; rewrite ?count_cons; cbn [is_xfer length];
+    (split; intros Hx; try discriminate; try (inv Hx);
+     try (specialize (E1 eq_refl)); try (specialize (E2 eq_refl)); try (cbn; lia)).
+  all: try match goal with Hc : clean (OExc _) |- _ => destruct Hc; congruence end.
+  - split; [reflexivity | constructor].
+  - destruct (E1 Hx) as (E3 & E4). split; [lia|]. constructor; [|exact E4]. apply N.eqb_eq in Eb. subst cc. reflexivity.
+Qed.
+
+(* what the repair changes: on the unrepaired loop a non-busy code is followed by a resend *)
+Lemma unrepaired_resends :
+  exists os t x rs, send_loop_unrepaired 3 os = (t, x, rs) /\
+    ~ Forall (fun e => e = busy_ev) (removelast t).
+Proof.
+  exists [OCc 0xC1; OVal 7], [ECall CXfer (OCc 0xC1); ECall CXfer (OVal 7)], (Ok 7), [].
+  split; [reflexivity|]. cbn. intros H. inv H. discriminate.
+Qed.
+
+(* ------------------------------------------------------------------------- *)
+(* statements at the level of the modelled entry points                       *)
+(* ------------------------------------------------------------------------- *)
+Lemma chunk_helper_eq retry resv os :
+  (1 <= retry)%nat -> get_sdr_chunk_helper retry resv os = chunk_iter (pred retry) resv os.
+Proof. destruct retry; [lia | reflexivity]. Qed.
+
+Lemma chunk_helper_counts retry resv os t x rs :
+  (1 <= retry)%nat -> get_sdr_chunk_helper retry resv os = (t, x, rs) ->
+  (count is_send t <= pred retry)%nat /\ (count is_reserve t <= count is_cancelled t)%nat /\
+  (forall k, count (is_clear k) t = 0%nat) /\ count is_xfer t = 0%nat /\
+  (length (outs t) <= 2 * pred retry)%nat /\ outs t ++ rs = os.
+Proof.
+  intros Hr H. rewrite chunk_helper_eq in H by exact Hr.
+  pose proof (chunk_iter_counts _ _ _ _ _ _ H) as (A1 & A2 & A3 & A4 & A5).
+  pose proof (chunk_iter_consumes _ _ _ _ _ _ H). tauto.
+Qed.
+Lemma chunk_helper_fresh retry resv os t x rs :
+  (1 <= retry)%nat -> get_sdr_chunk_helper retry resv os = (t, x, rs) ->
+  fresh_ok (Some resv) t = true /\ (forall r, x = Ok r -> cur_resv (Some resv) t = Some r).
+Proof. intros Hr H. rewrite chunk_helper_eq in H by exact Hr. eapply chunk_iter_fresh; eauto. Qed.
+Lemma chunk_helper_ends retry resv os t x rs :
+  (1 <= retry)%nat -> get_sdr_chunk_helper retry resv os = (t, x, rs) -> is_ok x = ends_with sent_ok t.
+Proof. intros Hr H. rewrite chunk_helper_eq in H by exact Hr. eapply chunk_iter_ends; eauto. Qed.
+Lemma chunk_helper_propagate retry resv os t x rs :
+  (1 <= retry)%nat -> get_sdr_chunk_helper retry resv os = (t, x, rs) ->
+  (forall r cc, In (ECall (CSend r) (OVal cc)) t -> cc <> 0 -> cc <> CC_RES_CANCELED -> cc <> CC_TIMEOUT ->
+     cc <> CC_RESP_COULD_NOT_BE_PRV -> x = Err (CCError cc)) /\
+  (forall c cc, In (ECall c (OCc cc)) t -> x = Err (CCError cc)) /\
+  (forall c e, In (ECall c (OExc e)) t -> x = Err e).
+Proof. intros Hr H. rewrite chunk_helper_eq in H by exact Hr. eapply chunk_iter_propagate; eauto. Qed.
+Lemma chunk_helper_budget retry resv os t x rs :
+  (1 <= retry)%nat -> get_sdr_chunk_helper retry resv os = (t, x, rs) -> Forall clean os ->
+  (x = Err RetryError -> count is_send t = pred retry) /\
+  (x = Err OutOfFuel -> (length os < 2 * pred retry)%nat).
+Proof. intros Hr H. rewrite chunk_helper_eq in H by exact Hr. eapply chunk_iter_budget; eauto. Qed.
+
+Lemma send_message_counts retry os t x rs :
+  send_message retry os = (t, x, rs) ->
+  (count is_xfer t <= retry)%nat /\ length t = count is_xfer t /\ outs t ++ rs = os.
+Proof.
+  intros H. pose proof (send_counts _ _ _ _ _ H) as (A & B). pose proof (send_consumes _ _ _ _ _ H). tauto.
+Qed.
+
+(* "repeated only after node-busy": every send that is followed by another one was
+   answered with CompletionCodeError(node busy) *)
+Lemma send_message_busy_only retry os t x rs :
+  send_message retry os = (t, x, rs) ->
+  forall a e b, t = a ++ e :: b -> b <> [] -> e = busy_ev.
+Proof.
+  intros H a e b -> Hb. apply send_busy_only in H.
+  rewrite removelast_app in H by discriminate.
+  apply Forall_app in H as [_ H]. destruct b as [|e' b]; [congruence|].
+  change (removelast (e :: e' :: b)) with (e :: removelast (e' :: b)) in H. inv H. reflexivity.
+Qed.
+
+Lemma unrepaired_resends_split :
+  exists retry os t x rs a e b, send_loop_unrepaired retry os = (t, x, rs) /\
+    t = a ++ e :: b /\ b <> [] /\ e <> busy_ev.
+Proof.
+  exists 3%nat, [OCc 0xC1; OVal 7], [ECall CXfer (OCc 0xC1); ECall CXfer (OVal 7)], (Ok 7), [],
+    [], (ECall CXfer (OCc 0xC1)), [ECall CXfer (OVal 7)].
+  repeat split; discriminate.
+Qed.
